@@ -1,13 +1,12 @@
-"""Property -> harness registry (what the check driver runs and how it reports)."""
-REGISTRY = {
- "C19": {
-  "harness": "c19", "level": "exploration",
-  "technique": "stateless model checking of the real code: preemption-bounded exhaustive schedule exploration (DFS over thread interleavings under a cooperative scheduler)",
-  "level_text": "All interleavings of producers, the batching and writing loops, a slow broker and Close() of the real KafkaWriter/FifoBuffer up to preemption bound 2 (quick) / 3 (thorough) for 6 producer/event configurations; oracle: exactly-once, per-producer order, batch<=100, partition key, Close returns, nothing accepted is lost. Right level because the property quantifies over schedules and the bugs found (lost flush, missed wake-up) need a specific interleaving.",
-  "level_note": "Trusted: vrt scheduler fidelity (self-tests), goinstr rewrite rules; Kafka replaced by an injected write function; sequentially consistent memory.",
-  "rule": "every thread interleaving of producers / batching loop / writing loop / broker / closer of the real KafkaWriter+FifoBuffer up to the stated preemption bound, per scenario (producers x events); an execution is non-trivial if at least one batch reached the broker (or the scenario publishes nothing); distinct = distinct observation logs (batch contents and order) among those",
-  "assumptions": ["vrt is sequentially consistent (no weak-memory effects)", "Kafka itself is replaced by an injected write function; broker latency = a scheduling point inside it", "kafka.Writer.Close() of an unused writer does not block"],
- },
-}
-
+"""Property -> harness registry, assembled from harness/*/registry.json
+(each file: {"<PROP>": {harness, level, technique, level_text, level_note, rule, assumptions, ...}})."""
+import glob, json, os
+_V = os.path.dirname(os.path.dirname(os.path.abspath(__file__)))
+REGISTRY = {}
+for _f in sorted(glob.glob(os.path.join(_V, "harness", "*", "registry.json"))):
+    for _k, _v in json.load(open(_f)).items():
+        REGISTRY[_k] = _v
 NOT_APPLICABLE = {}
+_na = os.path.join(_V, "harness", "not_applicable.json")
+if os.path.exists(_na):
+    NOT_APPLICABLE = json.load(open(_na))
